@@ -6,6 +6,7 @@
 import Wormhole.GeneratedWsBody
 import Wormhole.Props.C17
 import Wormhole.Inv.MsgDb
+import Wormhole.Tie.WsReject
 
 namespace Wormhole.Tie
 open Wormhole Wormhole.PyWs
@@ -479,12 +480,135 @@ theorem handle_close_eq (s : Sys) (c : Nat) (x : Conn) (app side : String) (t : 
         · simp [closeHead2, execL, execS, eval, getPV, isTruthy, St.conn, hx, getAttr, hdc', hj, hmi, Sys.handleClose, hid, ofOptStr,
             ofJson, hne]
 
-/-! ### the hypotheses `GenWsBody.handle_x = some body` above are not vacuous: these six handlers ARE translated -/
+theorem getPV_toVal {o : JObj} {k : String} {v : Val} (h : fieldVal (jget o k) = some (some v)) :
+    (getPV o k).toVal? = some v := by
+  unfold getPV
+  cases hj : jget o k with
+  | none => simp [hj, fieldVal] at h
+  | some jv =>
+    simp [hj, fieldVal] at h
+    cases jv <;> simp [JVal.toVal?] at h <;> subst h <;> simp [ofJson, PV.toVal?]
+
+theorem getPV_id {o : JObj} {v : Val} (h : fieldId (jget o "id") = some v) : (getPV o "id").toVal? = some v := by
+  unfold getPV
+  cases hj : jget o "id" with
+  | none => simp [hj, fieldId] at h; subst h; simp [PV.toVal?]
+  | some jv =>
+    simp [hj, fieldId] at h
+    cases jv <;> simp [JVal.toVal?] at h <;> subst h <;> simp [ofJson, PV.toVal?]
+
+theorem handle_add_eq (s : Sys) (c : Nat) (x : Conn) (app side : String) (t : Time) (msg : JObj) (pick : Nat)
+    (draws : List Nat) (fresh : String) (id : Val) (ph bd : Option Val)
+    (hx : s.findConn c = some x) (ha : x.app = some app) (hs : x.side = some side)
+    (hid : fieldId (jget msg "id") = some id)
+    (hph : fieldVal (jget msg "phase") = some ph) (hbd : fieldVal (jget msg "body") = some bd) (body : List PS)
+    (hb : GenWsBody.handle_add = some body) :
+    runHandler body ⟨c, t, msg, pick, draws, fresh⟩ s = s.handleAdd x app side t id ph bd := by
+  simp only [GenWsBody.handle_add, Option.some.injEq] at hb
+  subst hb
+  have hxid := Sys.findConn_id hx
+  cases hmb : x.mailbox with
+  | none =>
+    simp [runHandler, execL, execS, eval, isTruthy, St.conn, hx, getAttr, hmb, Sys.handleAdd, hxid]
+  | some mb =>
+    have hp1 := fieldVal_isNone hph
+    have hb1 := fieldVal_isNone hbd
+    cases ph with
+    | none =>
+      have hj := hp1.1 rfl
+      simp [runHandler, execL, execS, eval, isTruthy, St.conn, hx, getAttr, hmb, Sys.handleAdd, hxid, hj]
+    | some p =>
+      have hjp : (jget msg "phase").isSome = true := by
+        cases h : jget msg "phase" with
+        | none => exact absurd (hp1.2 h) (by simp)
+        | some _ => rfl
+      cases bd with
+      | none =>
+        have hj := hb1.1 rfl
+        simp [runHandler, execL, execS, eval, isTruthy, St.conn, hx, getAttr, hmb, Sys.handleAdd, hxid, hj, hjp]
+      | some b =>
+        have hjb : (jget msg "body").isSome = true := by
+          cases h : jget msg "body" with
+          | none => exact absurd (hb1.2 h) (by simp)
+          | some _ => rfl
+        have e1 := getPV_toVal hph
+        have e2 := getPV_toVal hbd
+        have e3 := getPV_id hid
+        simp [runHandler, execL, execS, eval, isTruthy, St.conn, hx, getAttr, hmb, Sys.handleAdd, hxid, hjp, hjb, ha, hs,
+          List.lookup, callMethod, callAddMessage, ofOptStr, e1, e2, e3]
+
+theorem handle_list_eq (s : Sys) (c : Nat) (x : Conn) (app : String) (t : Time) (msg : JObj) (pick : Nat)
+    (draws : List Nat) (fresh : String)
+    (hx : s.findConn c = some x) (ha : x.app = some app) (body : List PS)
+    (hb : GenWsBody.handle_list = some body) :
+    runHandler body ⟨c, t, msg, pick, draws, fresh⟩ s = s.handleList x app := by
+  simp only [GenWsBody.handle_list, Option.some.injEq] at hb
+  subst hb
+  have hxid := Sys.findConn_id hx
+  by_cases hal : s.cfg.allowList = true
+  · simp [runHandler, execL, execS, eval, St.conn, hx, ha, callMethod, List.lookup, mkFrame, Sys.handleList, hxid, hal]
+  · have hal' : s.cfg.allowList = false := by simpa using hal
+    simp [runHandler, execL, execS, eval, St.conn, hx, ha, callMethod, List.lookup, mkFrame, Sys.handleList, hxid, hal']
+
+theorem handle_open_eq (s : Sys) (c : Nat) (x : Conn) (app side : String) (t : Time) (msg : JObj) (pick : Nat)
+    (draws : List Nat) (fresh : String) (m : Option String)
+    (hx : s.findConn c = some x) (ha : x.app = some app) (hs : x.side = some side)
+    (hm : fieldStr (jget msg "mailbox") = some m) (body : List PS)
+    (hb : GenWsBody.handle_open = some body) :
+    runHandler body ⟨c, t, msg, pick, draws, fresh⟩ s = s.handleOpen x app side t m := by
+  simp only [GenWsBody.handle_open, Option.some.injEq] at hb
+  subst hb
+  have hid := Sys.findConn_id hx
+  cases hmb : x.mailbox with
+  | some h =>
+    simp [runHandler, execL, execS, eval, getPV, isTruthy, St.conn, hx, getAttr, hmb, Sys.handleOpen, hid]
+  | none =>
+    cases hj : jget msg "mailbox" with
+    | none =>
+      simp [hj, fieldStr] at hm; subst hm
+      simp [runHandler, execL, execS, eval, getPV, isTruthy, St.conn, hx, getAttr, hmb, Sys.handleOpen, hid, hj]
+    | some jv =>
+      cases jv <;> simp [hj, fieldStr] at hm
+      subst hm
+      rename_i mb
+      have h0 : (s.updConn c (fun y => { y with mailboxId := some mb })).findConn c = some { x with mailboxId := some mb } :=
+        findConn_updConn (f := fun y => { y with mailboxId := some mb }) hx (fun _ => rfl)
+      rcases hr : (s.updConn c (fun y => { y with mailboxId := some mb })).openMailbox app mb side t with ⟨s1, r⟩
+      have hc1 : s1.conns = (s.updConn c (fun y => { y with mailboxId := some mb })).conns := by
+        have := Sys.openMailbox_conns (s.updConn c (fun y => { y with mailboxId := some mb })) app mb side t
+        rw [hr] at this; exact this
+      have hx1 : s1.findConn c = some { x with mailboxId := some mb } := by rw [findConn_congr hc1]; exact h0
+      have hx2 : (s1.updConn c (fun y => { y with mailbox := some mb })).findConn c
+          = some { x with mailboxId := some mb, mailbox := some mb } :=
+        findConn_updConn (f := fun y => { y with mailbox := some mb }) hx1 (fun _ => rfl)
+      have hx3 : ((s1.updConn c (fun y => { y with mailbox := some mb })).updConn c (fun y => { y with listening := true })).findConn c
+          = some { x with mailboxId := some mb, mailbox := some mb, listening := true } :=
+        findConn_updConn (f := fun y => { y with listening := true }) hx2 (fun _ => rfl)
+      have h3 : (s1.updConn c (fun y => { y with mailbox := some mb })).updConn c (fun y => { y with listening := true })
+          = s1.updConn c (fun y => { y with mailbox := some mb, listening := true }) :=
+        updConn_updConn _ _ _ _ (fun _ => rfl)
+      have hx4 : (s1.updConn c (fun y => { y with mailbox := some mb, listening := true })).findConn c
+          = some { x with mailboxId := some mb, mailbox := some mb, listening := true } :=
+        findConn_updConn (f := fun y => { y with mailbox := some mb, listening := true }) hx1 (fun _ => rfl)
+      cases r with
+      | crowded =>
+        simp [runHandler, execL, execS, eval, getPV, isTruthy, St.conn, hx, h0, getAttr, hmb, Sys.handleOpen, hid, hj, ofJson,
+          setAttr, PV.toOptStr, List.lookup, ha, hs, callMethod, callOpen, hr, openRes, ofOptStr]
+      | integrity =>
+        simp [runHandler, execL, execS, eval, getPV, isTruthy, St.conn, hx, h0, getAttr, hmb, Sys.handleOpen, hid, hj, ofJson,
+          setAttr, PV.toOptStr, List.lookup, ha, hs, callMethod, callOpen, hr, openRes, ofOptStr]
+      | ok =>
+        simp [runHandler, execL, execS, eval, getPV, isTruthy, St.conn, hx, h0, hx2, hx3, hx4, h3, getAttr, hmb, Sys.handleOpen, hid, hj,
+          ofJson, setAttr, PV.toOptStr, PV.toHandle, PV.toBool, List.lookup, ha, hs, callMethod, callOpen, hr, openRes, ofOptStr,
+          listenReplay, expectedSend, expectedStop]
+
+/-! ### the hypotheses `GenWsBody.handle_x = some body` above are not vacuous: all nine handlers ARE translated -/
 
 theorem translated_handlers :
     GenWsBody.handle_ping.isSome = true ∧ GenWsBody.handle_bind.isSome = true ∧ GenWsBody.handle_allocate.isSome = true ∧
-    GenWsBody.handle_claim.isSome = true ∧ GenWsBody.handle_release.isSome = true ∧ GenWsBody.handle_close.isSome = true :=
-  ⟨rfl, rfl, rfl, rfl, rfl, rfl⟩
+    GenWsBody.handle_claim.isSome = true ∧ GenWsBody.handle_release.isSome = true ∧ GenWsBody.handle_close.isSome = true ∧
+    GenWsBody.handle_add.isSome = true ∧ GenWsBody.handle_list.isSome = true ∧ GenWsBody.handle_open.isSome = true :=
+  ⟨rfl, rfl, rfl, rfl, rfl, rfl, rfl, rfl, rfl⟩
 
 /-- non-vacuity on a concrete state: a bound connection claims nameplate "7" through the generated body -/
 example :
